@@ -480,7 +480,7 @@ mutant("C16-M20", "C16", "R16h", "reader forces the uncertainty column off (conn
 twin("C16-T4", "C16", "reader flag written as a conditional statement", EX, "TimeDependentValuesEntry.from_rows", 'tdve.write_units = True if "units" in headings else None', 'tdve.write_units = None\n        if "units" in headings:\n            tdve.write_units = True')
 mutant("C15-M13", "C15", "R15e", "bounds looked up at the first year not after t", OP, "TotalSpendConstraint.get_hard_constraint", "idx = np.where(adjustment.t == t)[0][0]", "idx = np.where(adjustment.t <= t)[0][0]")
 mutant("C15-M14", "C15", "R15e", "bounds always taken from the first adjustable", OP, "TotalSpendConstraint.get_hard_constraint", "adjustable = adjustment.adjustables[idx]", "adjustable = adjustment.adjustables[0]")
-twin("C15-T3", "C15", "equality written the other way round", OP, "TotalSpendConstraint.get_hard_constraint", "idx = np.where(adjustment.t == t)[0][0]", "idx = np.where(t == adjustment.t)[0][0]")
+twin("C15-T9", "C15", "equality written the other way round", OP, "TotalSpendConstraint.get_hard_constraint", "idx = np.where(adjustment.t == t)[0][0]", "idx = np.where(t == adjustment.t)[0][0]")
 mutant("C17-M10", "C17", "R17e", "interaction outcome stored with the baseline added", PR, "Covout.sample", "self._interactions[k] = v + self.sigma * np.random.randn(1)[0]", "self._interactions[k] = v + self.baseline + self.sigma * np.random.randn(1)[0]")
 mutant("C17-M11", "C17", "R17e", "program outcome scaled instead of shifted", PR, "Covout.sample", "self.progs[k] = v + self.sigma * np.random.randn(1)[0]", "self.progs[k] = v * 1.01 + self.sigma * np.random.randn(1)[0]")
 mutant("C17-M12", "C17", "R17e", "per-point draw loses the old value", U, "TimeSeries.sample", "new.vals[i] = v + delta", "new.vals[i] = delta")
@@ -764,3 +764,64 @@ mutant("C10-M27", "C10", "R10c", "early exit for populations without databook qu
 mutant("C13-M26", "C13", "R16k", "covouts keys unpacked as (population, parameter)", M, "Population.build", "(progset is not None and (par.name, self.name) in progset.covouts)", "(progset is not None and par.name in {b for a, b in progset.covouts.keys() if a == self.name})")
 mutant("C12-M31", "C12", "R16a", "reconciliation refreshes only covouts whose outcomes changed", RC, "_update_progset", "    for covout in progset.covouts.values():\n        covout.update_outcomes()", "    pass")
 mutant("C14-M36", "C14", "R15f", "initial value written back to the adjustable while computing bounds", OP, "Optimization.get_initialization", "                bounds = adjustable.get_hard_bounds(x0[ptr])", "                adjustable.initial_value = x0[ptr]\n                bounds = adjustable.get_hard_bounds(x0[ptr])")
+
+
+# ---- rename twins: a local variable renamed consistently inside one function (regex on word boundaries) must not raise anything
+def rename_twin(id, prop, file, func, old, new):
+    twin(id, prop, "local `%s` renamed to `%s` in %s" % (old, new, func), file, func, r"\b%s\b" % old, new, regex=True)
+
+
+rename_twin("C12-T8", "C12", PR, "Covout.get_outcome", "cov", "cvec")
+rename_twin("C12-T9", "C12", PR, "Covout.get_outcome", "additive", "add_share")
+rename_twin("C12-T10", "C12", PR, "Covout.get_outcome", "net_random", "mix")
+rename_twin("C14-T9", "C14", OP, "constrain_sum_bounded", "x0_scaled", "x_unit")
+rename_twin("C14-T10", "C14", OP, "constrain_sum_bounded", "lb_scaled", "lo_unit")
+rename_twin("C14-T11", "C14", OP, "constrain_sum_bounded", "res", "solution")
+rename_twin("C07-T5", "C07", M, "Population.initialize_compartments", "proposed", "fitted")
+rename_twin("C07-T6", "C07", M, "Population.initialize_compartments", "b_objs", "rows")
+rename_twin("C07-T7", "C07", M, "Population.initialize_compartments", "comp_indices", "col_of")
+rename_twin("C13-T3", "C13", RS, "Result.get_coverage", "num_eligible", "eligible")
+rename_twin("C13-T4", "C13", RS, "Result.get_coverage", "output", "out")
+rename_twin("C15-T5", "C15", OP, "Measurable.get_objective_val", "t_filter", "when")
+rename_twin("C15-T6", "C15", OP, "Measurable.get_objective_val", "val", "total")
+rename_twin("C15-T7", "C15", CA, "_calculate_objective", "objective", "obj")
+rename_twin("C16-T6", "C16", "atomica/excel.py", "TimeDependentValuesEntry.write", "offset", "col0")
+rename_twin("C16-T7", "C16", "atomica/excel.py", "TimeDependentValuesEntry.from_rows", "ts", "series")
+rename_twin("C04-T9", "C04", M, "JunctionCompartment.balance", "net_inflow", "arrivals")
+rename_twin("C04-T10", "C04", M, "ResidualJunctionCompartment.balance", "outflow_fractions", "props")
+rename_twin("C01-T7", "C01", M, "TimedCompartment.resolve_outflows", "total_outflow", "requested")
+rename_twin("C02-T6", "C02", M, "Compartment.resolve_outflows", "rescale", "factor")
+rename_twin("C05-T9", "C05", M, "TimedCompartment.preallocate", "duration", "stay")
+rename_twin("C06-T10", "C06", M, "Model.build", "from_pops", "src_pops")
+rename_twin("C06-T11", "C06", U, "TimeSeries.interpolate", "t1", "tdata")
+rename_twin("C10-T2", "C10", PA, "Initialization.from_result", "idx", "pos")
+rename_twin("C11-T9", "C11", PR, "Program.get_prop_covered", "saturation", "sat")
+rename_twin("C20-T7", "C20", PL, "PlotData.__init__", "pop_labels", "members")
+rename_twin("C20-T8", "C20", CS, "get_cascade_data", "data_values", "by_code")
+rename_twin("C19-T6", "C19", FP, "parse_function", "node", "nd")
+rename_twin("C03-T7", "C03", M, "Model.update_links", "converted_frac", "frac")
+rename_twin("C17-T6", "C17", U, "TimeSeries.sample", "delta", "noise")
+rename_twin("C18-T6", "C18", FW, "ProjectFramework._validate_parameters", "par_name", "pname")
+rename_twin("C09-T7", "C09", "atomica/scenarios.py", "ParameterScenario.get_parset", "scen_start", "first_year")
+rename_twin("C08-T7", "C08", M, "Population.build", "includes", "members")
+
+# ---- round 6 batch 3 (S75-S80): shape rules (rules/shapes.py) and R19h
+mutant("C15-M30", "C15", "R15u", "MinimizeMeasurable drops the population selection", OP, "MinimizeMeasurable.__init__", "weight=1, pop_names=pop_names)", "weight=1)")
+mutant("C15-M31", "C15", "R15v", "AtMostMeasurable passes None for the population selection while still reading it", OP, "AtMostMeasurable.__init__", "        Measurable.__init__(self, measurable_name, t=t, weight=np.inf, pop_names=pop_names)", "        Measurable.__init__(self, measurable_name, t=t, weight=np.inf, pop_names=None)\n        self._requested_pops = pop_names")
+twin("C15-T8", "C15", "population selection forwarded positionally", OP, "MaximizeMeasurable.__init__", "Measurable.__init__(self, measurable_name, t=t, weight=-1, pop_names=pop_names)", "Measurable.__init__(self, measurable_name, t, pop_names, -1)")
+mutant("C16-M33", "C16", "R16l", "remove_comp strips the raw name from the targets", PR, "ProgramSet.remove_comp", "prog.target_comps.remove(code_name)", "prog.target_comps.remove(name)")
+mutant("C16-M34", "C16", "R16l", "remove_par deletes the covouts keyed by the raw name", PR, "ProgramSet.remove_par", "del self.covouts[(code_name, pop)]", "del self.covouts[(name, pop)]")
+twin("C16-T8", "C16", "raw name only in an error message", PR, "ProgramSet.remove_pop", "        del self.pops[code_name]", "        if code_name not in self.pops:\n            raise KeyError('Population \"%s\" not found' % name)\n        del self.pops[code_name]")
+mutant("C17-M19", "C17", "R17g", "TimeSeries copy hook shares the value list", U, "TimeSeries.__deepcopy__", "new.vals = self.vals.copy()", "new.vals = self.vals")
+mutant("C17-M20", "C17", "R17g", "Covout copy hook sharing the interaction dict (seeded C17d)", PR, "Covout.n_progs", "    @property\n    def n_progs(self)", "    def __deepcopy__(self, memodict={}):\n        new = Covout.__new__(Covout)\n        new.__dict__.update(self.__dict__)\n        new.progs = self.progs.copy()\n        return new\n\n    @property\n    def n_progs(self)", edits=[dict(file=PR, old="    @property\n    def n_progs(self) -> int:", new="    def __deepcopy__(self, memodict={}):\n        new = Covout.__new__(Covout)\n        new.__dict__.update(self.__dict__)\n        new.progs = self.progs.copy()\n        return new\n\n    @property\n    def n_progs(self) -> int:")])
+twin("C17-T7", "C17", "TimeSeries copy hook builds the lists with list()", U, "TimeSeries.__deepcopy__", "new.vals = self.vals.copy()", "new.vals = list(self.vals)")
+twin("C17-T8", "C17", "Covout copy hook that deep-copies the whole __dict__", PR, None, None, None, edits=[dict(file=PR, old="    @property\n    def n_progs(self) -> int:", new="    def __deepcopy__(self, memodict={}):\n        new = Covout.__new__(Covout)\n        new.__dict__.update(sc.dcp(self.__dict__))\n        return new\n\n    @property\n    def n_progs(self) -> int:")])
+mutant("C08-M24", "C08", "R08h", "Model copy hook no longer deep-copies the state", M, "Model.__deepcopy__", "        d = sc.dcp(self.__dict__)\n", "        d = dict(self.__dict__)\n")
+mutant("C19-M28", "C19", "R19h", "max seeded with the smallest positive float (seeded C19d)", FP, "vector_max", "return reduce(np.maximum, args)", "return reduce(np.maximum, args, 2.2e-308)")
+mutant("C19-M29", "C19", "R19h", "min reduces with np.maximum", FP, "vector_min", "return reduce(np.minimum, args)", "return reduce(np.maximum, args)")
+mutant("C19-M30", "C19", "R19h", "ln bound to log10", FP, None, None, None, edits=[dict(file=FP, old='"ln": np.log,', new='"ln": np.log10,')])
+mutant("C19-M31", "C19", "R19h", "max and min swapped in the whitelist", FP, None, None, None, edits=[dict(file=FP, old='"max": vector_max, "min": vector_min', new='"max": vector_min, "min": vector_max')])
+twin("C19-T7", "C19", "max seeded with minus infinity", FP, "vector_max", "return reduce(np.maximum, args)", "return reduce(np.maximum, args, -np.inf)")
+twin("C19-T8", "C19", "min result in a local first", FP, "vector_min", "return reduce(np.minimum, args)", "out = reduce(np.minimum, args)\n    return out")
+mutant("C18-M32", "C18", "R18f", "cascade constituents accepted when they are any framework name (seeded C18d)", FW, "ProjectFramework._validate_cascades", "component.strip() in self.comps.index or component.strip() in self.characs.index", "component.strip() in self")
+mutant("C01-M30", "C01", "R01g", "timed compartment lookup collapses the time axis (seeded C20d)", M, "TimedCompartment.__getitem__", "return self._vals[:, ti].sum(axis=0)", "return self._vals[:, ti].sum()")
